@@ -128,6 +128,11 @@ EXTRA = [
     ('x_loadupib', 'var dest 1 d1\nvar src 1 s1\nvar temp 1 t1\ninsn loadupib 0 t1 s1\ninsn copyb 0 d1 t1\n', [1], None),
     ('x_loadoffw', 'var dest 2 d1\nvar src 2 s1\nvar temp 2 t1\nvar const 4 c1 1\ninsn loadoffw 0 t1 s1 c1\n'
                    'insn copyw 0 d1 t1\n', [2], None),
+    # many arrays: forces general registers beyond the caller-saved ones (callee-saved r12-r15, rbx, rbp get used)
+    ('x_many_arrays', 'var dest 1 d1\nvar dest 1 d2\nvar dest 1 d3\nvar dest 1 d4\n' + ''.join('var src 1 s%d\n' % i for i in range(1, 9)) +
+     'insn addb 0 d1 s1 s2\ninsn addb 0 d2 s3 s4\ninsn addb 0 d3 s5 s6\ninsn addb 0 d4 s7 s8\n', [1], None),
+    ('x_many_arrays_w', 'var dest 2 d1\nvar dest 2 d2\nvar dest 2 d3\n' + ''.join('var src 2 s%d\n' % i for i in range(1, 7)) +
+     'insn addw 0 d1 s1 s2\ninsn subw 0 d2 s3 s4\ninsn xorw 0 d3 s5 s6\n', [2], None),
     ('x_ldresnearl', 'var dest 4 d1\nvar src 4 s1\nvar param 4 p1\nvar param 4 p2\ninsn ldresnearl 0 d1 s1 p1 p2\n', [4], None),
     ('x_ldreslinl', 'var dest 4 d1\nvar src 4 s1\nvar param 4 p1\nvar param 4 p2\ninsn ldreslinl 0 d1 s1 p1 p2\n', [4], None),
     ('x_ldresnearb', 'var dest 1 d1\nvar src 1 s1\nvar param 4 p1\nvar param 4 p2\ninsn ldresnearb 0 d1 s1 p1 p2\n', [1], None),
